@@ -155,6 +155,7 @@ def check(ctx, run):
             run.fail(Finding("C18.R2", B.F + fname, "no non-negativity guard on time_to_maturity / volatility is reached", "negative time to maturity or volatility is not rejected",
                              file=str(prog.modules[fi.module].path), line=fi.node.lineno))
     ww_width_rule(ctx, run)
+    helper_limits_rule(ctx, run)
 
 
 def ww_width_rule(ctx, run):
@@ -182,3 +183,34 @@ def ww_width_rule(ctx, run):
             if not ok:
                 run.fail(Finding("C18.R3", fi.qualname, f"case {glabel},{clabel}: {val}", "the no-transaction band half-width is not a finite non-negative number, so the Whalley-Wilmott hedge is NaN on such paths",
                                  file=str(prog.modules[fi.module].path), line=fi.node.lineno, case=f"{glabel},{clabel}"))
+
+
+def helper_limits_rule(ctx, run):
+    """R1 (helpers): the boundary analysis uses npdf(+-inf) == 0 and ncdf(+inf) == 1, ncdf(-inf) == 0 EXACTLY - the `numerator == 0 and
+    denominator == 0` guards of the deltas and gammas fire only then.  Decided on the helpers' own bodies (summaries off), evaluated at
+    +-inf in the extended reals: a clamp of the argument, or a floor added to the density, makes the limit a positive number."""
+    from ..interp import Interp
+    from .. import world as W
+    prog = ctx.prog
+    raw = Interp(prog, max_depth=20)
+    for k in ("ncdf", "npdf"):
+        raw.intrinsics.pop(B.F + k, None)
+    run.require("C18.R1h", 4)
+    from ..extreal import inf
+    for name, at, want in (("npdf", 1, 0), ("npdf", -1, 0), ("ncdf", 1, 1), ("ncdf", -1, 0)):
+        fi = prog.functions.get(B.F + name)
+        if fi is None:
+            raise AnalysisError(f"anchor vanished: {name}")
+        res = [r for r in raw.explore(fi, [W.tensor("x")], {}) if not r["raises"]]
+        if len(res) != 1:
+            raise AnalysisError(f"{name}: expected one path")
+        try:
+            val = ExtReal({"x": inf(at)}).ev(res[0]["value"])
+        except (NotImplementedError, KeyError) as ex:
+            raise AnalysisError(f"{name}: extended-real domain cannot model {ex}")
+        ok = (val.kind == "zero") if want == 0 else (val.kind == "fin" and val.expr is not None and sp.simplify(val.expr - want) == 0)
+        lab = f"{name}({'+' if at > 0 else '-'}inf) == {want} exactly"
+        run.oblige("C18.R1h", lab, ok, str(val))
+        if not ok:
+            run.fail(Finding("C18.R1h", fi.qualname, f"{lab}: got {val}", "the exact-zero guards of the boundary cases (0/0 -> 0) rely on this limit; with a non-zero value the deltas/gammas at maturity or zero volatility are +-inf",
+                             file=str(prog.modules[fi.module].path), line=fi.node.lineno))
